@@ -13,6 +13,12 @@
   unowned in the roster; every active detector belongs to a listed environment;
   the calls it had pending were cancelled.
 
+  Executors and agents may be lost at any time (steps `execLost`, `agentLost`; the
+  environment's watcher then reacts: `watchError`): the tasks they ran are unlocked
+  (ids blanked) but keep their parent role. The clean-up theorems cover the states
+  this leaves (`C06_loss_keeps_hypotheses`, `C06_destroyed_after_loss_clean_partial`,
+  `C06_failed_create_after_loss_clean_partial`).
+
   Three statements do NOT hold of the code as it is. They are kept visible as
   `…_full`, proved under the hypothesis that excludes the offending inputs /
   schedules, and refuted on a witness the real core was seen to follow:
@@ -163,6 +169,92 @@ theorem C06_finding_launch_pending_leak : ¬ C06_no_leak_full := by
   have := h leakSchedule 0 (by decide) (by decide) (by decide)
   revert this
   decide
+
+/-! ## a lost executor or agent before the destroy / before the failure tail -/
+
+/-- **A lost executor / agent unlocks the task without taking it from its environment**
+    (HandleExecutorFailed / HandleAgentFailed blank executorId / agentId and leave the parent
+    role): every roster entry the failure names is afterwards not locked, INACTIVE, and has
+    the parent it had. This is the state a later destroy has to clean up. -/
+theorem C06_lost_task_unlocked_still_owned (s : State) (h : Host) (agent : Bool) (t : Task) (ht : t ∈ s.roster)
+    (hhit : t.hitBy agent h = true) :
+    ∃ t' ∈ (hostLost s h agent).roster, t'.id = t.id ∧ t'.isLocked = false ∧ t'.active = false ∧ t'.parent = t.parent := by
+  refine ⟨t.lose agent, ?_, (lose_props agent t).1, ?_, (lose_props agent t).2.2.2.2, (lose_props agent t).2.2.1⟩
+  · rw [hostLost_roster]
+    exact List.mem_map.mpr ⟨t, ht, by simp [hhit]⟩
+  · cases agent <;> simp [Task.lose, Task.isLocked, Task.idsOk]
+
+/-- … and releaseTask releases such a task all the same: a task whose parent role belongs to
+    the releasing environment (or to nobody) is released whether or not it is locked. -/
+theorem C06_release_unlocked_own (e : EnvId) (t : Task) (h : t.parent = some e ∨ t.parent = none) :
+    releaseTask e t = ({ t with parent := none }, true) := by
+  simp [releaseTask, releaseOk_of_parent e t h]
+
+/-- **Lost executors / agents and the watcher's reactions keep the hypotheses of the
+    clean-destroy theorem** (any number of them, on any hosts, with any STOP failures): the
+    environment stays listed with the same task and hook references, its bookkeeping stays
+    well-formed (`envWf`), roster and master still agree on the hosts, and a task of it that
+    the core believes inactive has really ended (`statusFaithful`: the lost tasks have). -/
+theorem C06_loss_keeps_hypotheses (s : State) (steps : List Step) (hl : steps.all Step.isLoss = true)
+    (k : EnvId) (tasks : List TaskId) (hooks : List HookRef) (h : LossKeeps s k tasks hooks) :
+    LossKeeps (run s steps) k tasks hooks :=
+  lossKeeps_run steps hl s k tasks hooks h
+
+/-- **After a destroy that answered success the environment is clean, also when executors or
+    agents of its tasks were lost before** (and its watcher took it to ERROR or not): same
+    statement and hypotheses as `C06_destroyed_clean_partial`, stated on the state before the
+    losses, plus `hostsAgree`; only the hook hypothesis has to hold at the destroy (a lost
+    DESTROY hook task is no longer ACTIVE: that is finding destroy_hooks_unreleased again). -/
+theorem C06_destroyed_after_loss_clean_partial (s : State) (steps : List Step) (hl : steps.all Step.isLoss = true)
+    (k : EnvId) (force allow keep : Bool) (o : DOracle) (E : Env)
+    (hE : s.env? k = some E) (hte : E.tearing = false) (hwf : envWf s k E.tasks = true) (hag : hostsAgree s E.tasks = true)
+    (hfaith : statusFaithful s E.tasks = true) (hhk : ∀ h ∈ E.hooks, h.task ∈ E.tasks)
+    (hrel : hooksReleasable (run s steps) E.hooks = true)
+    (hok : (destroy (run s steps) k force allow keep o).2.1 = .ok) :
+    cleanAfter k keep (viewOf (destroy (run s steps) k force allow keep o).1) = true :=
+  destroy_after_loss_clean s steps hl k force allow keep o E hE hte hwf hag hfaith hhk hrel hok
+
+/-- The same for the failure tail of a creation. -/
+theorem C06_failed_create_after_loss_clean_partial (s : State) (steps : List Step) (hl : steps.all Step.isLoss = true)
+    (k : EnvId) (late : Bool) (res : Res) (hf : List TaskId) (E : Env)
+    (hE : s.env? k = some E) (hte : E.tearing = false) (hwf : envWf s k E.tasks = true) (hag : hostsAgree s E.tasks = true)
+    (hfaith : statusFaithful s E.tasks = true) (hhk : ∀ h ∈ E.hooks, h.task ∈ E.tasks)
+    (hrel : hooksReleasable (run s steps) E.hooks = true)
+    (hnh : (createFail (run s steps) k E.tasks late res hf).2 ≠ .hang) :
+    cleanAfter k false (viewOf (createFail (run s steps) k E.tasks late res hf).1) = true :=
+  createFail_after_loss_clean s steps hl k late res hf E hE hte hwf hag hfaith hhk hrel hnh
+
+/-- Two tasks on hosts 1 and 2, created and configured. -/
+def lossSpec : EnvSpec :=
+  { bad := .ok, dets := [0], roles := [{ kind := .task, cls := 1, host := 1 }, { kind := .task, cls := 2, host := 2 }] }
+
+def lossState : State :=
+  run (init false [1, 2, 3, 4]) [.createBegin 0 lossSpec, .createCleanup 0, .createInsert 0, .createSettle 0 {}]
+
+def lossEnv : Env :=
+  { id := 0, state := .CONFIGURED, dets := [0], tasks := [1, 2], hooks := [],
+    calls := 0, pending := 0, started := 0, cancelled := 0, tearing := false }
+
+/-- The hypotheses are satisfiable and the loss is not a no-op: the executor on host 1 is
+    lost, the watcher takes the environment to ERROR; task 1 is then unlocked but still
+    parented by environment 0; a forced destroy that keeps the tasks answers success and
+    leaves no roster entry with environment 0 as owner. -/
+example :
+    lossState.env? 0 = some lossEnv ∧ envWf lossState 0 [1, 2] = true ∧ hostsAgree lossState [1, 2] = true ∧
+    statusFaithful lossState [1, 2] = true ∧
+    (viewOf (run lossState [.execLost 1, .watchError 0 []])).roster =
+      [{ task := 1, owner := some 0, locked := false, state := none },
+       { task := 2, owner := some 0, locked := true, state := some .CONFIGURED }] ∧
+    (destroy (run lossState [.execLost 1, .watchError 0 []]) 0 true false true {}).2.1 = .ok ∧
+    (viewOf (destroy (run lossState [.execLost 1, .watchError 0 []]) 0 true false true {}).1).roster =
+      [{ task := 1, owner := none, locked := false, state := none },
+       { task := 2, owner := none, locked := false, state := none }] := by decide
+
+/-- `cleanAfter` rejects what a release that skips unlocked tasks would leave: the same view
+    with task 1 still owned by the destroyed environment. -/
+example : cleanAfter 0 true
+    { roster := [{ task := 1, owner := some 0, locked := false, state := none },
+                 { task := 2, owner := none, locked := false, state := none }] } = false := by decide
 
 /-! ## order inside a teardown -/
 
